@@ -102,7 +102,7 @@ func main() {
 	}
 	if *variant == "thread" {
 		for _, f := range []string{"torrent/session.go", "torrent/torrent.go"} {
-			add(f, importRewrite(`"sync"`, `sync "`+modpfx+`vsync"`))
+			add(f, importRewrite(`"sync"`, `sync "go.etcd.io/bbolt/vsync"`))
 		}
 	}
 	for f, fs := range edits {
